@@ -17,7 +17,7 @@
    all structured rules (reductions, gathers, contractions, linalg, fft). *)
 From Coq Require Import Reals List Ring.
 From Coquelicot Require Import Coquelicot.
-From AG Require Import RealPrelude ScalarRules VSpace VSpaceProof Broadcast MatMul Select Stats StatsProof.
+From AG Require Import RealPrelude ScalarRules VSpace VSpaceProof Broadcast MatMul Select Stats StatsProof Bilinear.
 From AGGen Require Import GenRules.
 Local Open Scope R_scope.
 
@@ -160,3 +160,18 @@ Theorem C01_norm_rule_exact :
     /\ StatsProof.rdot (StatsProof.rnorm_vjp x (sqrt (StatsProof.rsumsq x)) g) v = g * StatsProof.rnorm_jvp x v (sqrt (StatsProof.rsumsq x)).
 Proof. intros x v g H Hp. split; [exact (StatsProof.norm_jvp_exact x v H Hp) | exact (StatsProof.norm_vjp_exact x v g H Hp)]. Qed.
 Print Assumptions C01_norm_rule_exact.
+
+(* bilinear primitives (dot / matmul / @ in all rank combinations, tensordot, inner, outer, kron, two-operand einsum,
+   cross, multiply): for every list of structure constants the two reverse rules are the adjoints of the two partial
+   maps, each in its argument's space *)
+Theorem C01_bilinear_rules_are_adjoints :
+  forall (K : Type) (k0 k1 : K) (kadd kmul ksub : K -> K -> K) (kopp : K -> K),
+    ring_theory k0 k1 kadd kmul ksub kopp eq ->
+    forall na nb no S A B g,
+      List.Forall (Bilinear.in_bounds K na nb no) S -> length A = na -> length B = nb -> length g = no ->
+      dot K k0 kadd kmul g (Bilinear.bil K k0 kadd kmul no S A B) = dot K k0 kadd kmul (Bilinear.vjpA K k0 kadd kmul na S g B) A
+      /\ dot K k0 kadd kmul g (Bilinear.bil K k0 kadd kmul no S A B) = dot K k0 kadd kmul (Bilinear.vjpB K k0 kadd kmul nb S g A) B
+      /\ length (Bilinear.vjpA K k0 kadd kmul na S g B) = na /\ length (Bilinear.vjpB K k0 kadd kmul nb S g A) = nb
+      /\ length (Bilinear.bil K k0 kadd kmul no S A B) = no.
+Proof. exact Bilinear.bilinear_rules_adjoint. Qed.
+Print Assumptions C01_bilinear_rules_are_adjoints.
